@@ -542,9 +542,6 @@ func (nl *NodeList) GetRootNodes() []*Node {
 	for i := range nl.Nodes {
 		if _, ok := index[nl.Nodes[i].Id]; ok {
 			ret = append(ret, nl.Nodes[i])
-			if len(ret) == len(index) {
-				break
-			}
 		}
 	}
 	// TODO(ehandling): What if not all nodes were found?
